@@ -156,6 +156,10 @@ let check_inv key_of (t: 'e tree) (p: pool) ~(force: bool) =
 
 let peak = ref 0 and cap_hint = ref 0
 let compare_tree_snap (coll: string) key_of (snap: 'e snap) (mt: 'e tree) (mp: pool) =
+  (* the peak population is followed on the model after every operation: snapshots of the
+     implementation may be sparse (ITV_SNAP_EVERY), and a peak between two of them must count *)
+  let mstored = int_of_nat (size0 mt) in
+  if mstored > !peak then peak := mstored;
   match snap with
   | NoSnap -> ()
   | Broken why -> mismatch "INV_LINKS" ~impl:why ~model:"consistent links"
